@@ -112,5 +112,55 @@ theorem rr07x_thermal_law (ρ : Env) (td : String) (s : SpecInfo) :
   · simp only [b2r, h, if_true]; simp
   · simp only [b2r, h, if_false]; simp
 
+theorem numVal_4 : numVal ['4', '.', '0'] = 4 := by
+  have : parseDec ['4', '.', '0'] = some (40, -1) := by decide
+  simp only [numVal, this]; norm_num
+theorem numVal_164em4 : numVal ['1', '.', '6', '4', 'e', '-', '4'] = 1.64e-4 := by
+  have : parseDec ['1', '.', '6', '4', 'e', '-', '4'] = some (164, -6) := by decide
+  simp only [numVal, this]; norm_num
+
+/-- **C11 (the RR07 gates).** Every RR07 desorption process is switched by two conditions: there is a mantle, and the
+    species' *own* binding energy does not exceed the ceiling *of that process* (`eb_h2d` for H2-formation desorption,
+    `eb_crd` for cosmic-ray desorption, …); otherwise the coefficient is exactly 0. -/
+theorem rr07_guard_law (ρ : Env) (ebmax : String) (s : SpecInfo) (rate : Expr) :
+    evalE ρ (rr07GuardTree ebmax s rate) =
+      if v ρ "mantabund" > 1e-30 ∧ v ρ ebmax ≥ ρ.mag s.ebId then evalE ρ rate else 0 := by
+  unfold rr07GuardTree
+  have hc1 : evalE ρ (.bin ['>'] (V "mantabund") (N "1e-30")) = b2r (v ρ "mantabund" > 1e-30) := by
+    simp [evalE, v, numVal_1em30]
+  have hc2 : evalE ρ (.bin ['>', '='] (V ebmax) (M s.ebId)) = b2r (v ρ ebmax ≥ ρ.mag s.ebId) := by
+    simp [evalE, v, M]
+  have hz : evalE ρ (N "0.0") = 0 := by simp [numVal_0p0]
+  rw [eval_cond, eval_cond, hc1, hc2, hz]
+  by_cases h1 : v ρ "mantabund" > 1e-30 <;> by_cases h2 : v ρ ebmax ≥ ρ.mag s.ebId <;> simp [b2r, h1, h2]
+
+/-- **C11 (H2-formation desorption, RR07).** `k = opt · ε_H2 · R_H2 · n(H) / mantle`, gated by `eb_h2d`. -/
+theorem rr07_h2_law (ρ : Env) (s : SpecInfo) :
+    evalE ρ (rr07H2Tree s) =
+      if v ρ "mantabund" > 1e-30 ∧ v ρ "eb_h2d" ≥ ρ.mag s.ebId then
+        v ρ "opt_h2d" * v ρ "h2deseff" * v ρ "H2formation" * ρ.arr "y".toList "IDX_HI".toList / v ρ "mant"
+      else 0 := by
+  unfold rr07H2Tree
+  rw [rr07_guard_law]
+  have : evalE ρ rr07H2RateTree =
+      v ρ "opt_h2d" * v ρ "h2deseff" * v ρ "H2formation" * ρ.arr "y".toList "IDX_HI".toList / v ρ "mant" := by
+    have hidx : evalE ρ ((V "y").idx (V "IDX_HI")) = ρ.arr "y".toList "IDX_HI".toList := by
+      unfold V; rw [evalE]
+    simp [v, rr07H2RateTree, hidx]
+  rw [this]
+
+/-- **C11 (cosmic-ray desorption, RR07).** `k = opt · 4π · ε_cr · (ζ/ζ_ISM) · 1.64e-4 · σ_g / mantle`, gated by `eb_crd`. -/
+theorem rr07_cosmicray_law (ρ : Env) (s : SpecInfo) :
+    evalE ρ (rr07CosmicRayTree s) =
+      if v ρ "mantabund" > 1e-30 ∧ v ρ "eb_crd" ≥ ρ.mag s.ebId then
+        v ρ "opt_crd" * 4 * v ρ "pi" * v ρ "crdeseff" * (v ρ "zeta" / v ρ "zism") * 1.64e-4 * v ρ "gxsec" / v ρ "mant"
+      else 0 := by
+  unfold rr07CosmicRayTree
+  rw [rr07_guard_law]
+  have : evalE ρ rr07CosmicRayRateTree =
+      v ρ "opt_crd" * 4 * v ρ "pi" * v ρ "crdeseff" * (v ρ "zeta" / v ρ "zism") * 1.64e-4 * v ρ "gxsec" / v ρ "mant" := by
+    simp [v, rr07CosmicRayRateTree, evalE, numVal_4, numVal_164em4]
+  rw [this]
+
 end
 end Naunet.C11
